@@ -72,7 +72,7 @@ class Step(VC):
         m = I.force(ctx, msg)
         v = self.variant
         if v == "Bond":
-            ctx.bounds["vec"] = 2
+            ctx.bounds["vec"] = getattr(self, "nfunds", 2)
             funds = symval.fresh(I, ctx, "Vec<Coin>", "funds", None, STAKE)
             info = info.with_("funds", funds)
         # the membership invariant is assumed for the one address whose stake this call can touch (everybody else is framed)
@@ -215,10 +215,13 @@ class Base(VC):
 
 
 def vcs(tier):
-    return [Step(v) for v in ("Bond", "Receive", "Unbond", "Claim", "UpdateAdmin", "AddHook", "RemoveHook")] + [Base()]
+    out = [Step(v) for v in ("Bond", "Receive", "Unbond", "Claim", "UpdateAdmin", "AddHook", "RemoveHook")] + [Base()]
+    big = Step("Bond"); big.nfunds = 4; big.name = "C10.step.Bond[funds<=4]"
+    out.append(big)
+    return out
 
 
-BOUNDS = {"stakers with state": NU, "claims per staker": "<= 2", "hooks": "<= 1", "coins in info.funds": "<= 2", "amounts / tokens_per_weight / min_bond": "full u128",
+BOUNDS = {"stakers with state": NU, "claims per staker": "<= 2", "hooks": "<= 1", "coins in info.funds": "<= 4", "amounts / tokens_per_weight / min_bond": "full u128",
           "unbonding period": "height- and time-based, symbolic u64"}
 OUTSIDE = "more than 2 pending claims per staker (partition loop uniform); the token's own bookkeeping (a cw20 that follows the spec credits before calling Receive)"
 ASSUMPTIONS = ["ghost `holdings`: tokens listed in info.funds / announced by the configured cw20's Receive have been credited to the contract before the call (platform / cw20 spec)",
